@@ -332,6 +332,31 @@ def writes_instance_state(fn):
     -- state that survives on the transform object from one call to the next"""
     if fn.name == '__init__' or not fn.args.args or fn.args.args[0].arg != 'self':
         return False
+
+    def may_be_self_attr(v):
+        # self.x, or a conditional / boolean expression one of whose values is self.x (`self.x if c else list(self.x)`)
+        if isinstance(v, ast.Attribute) and isinstance(v.value, ast.Name) and v.value.id == 'self':
+            return True
+        if isinstance(v, ast.IfExp):
+            return may_be_self_attr(v.body) or may_be_self_attr(v.orelse)
+        if isinstance(v, ast.BoolOp):
+            return any(may_be_self_attr(x) for x in v.values)
+        return False
+    # local names that may be the very object held in an attribute of self: a store through them is a write to self
+    aliases = {tg.id for n in ast.walk(fn) if isinstance(n, ast.Assign) and may_be_self_attr(n.value)
+               for tg in n.targets if isinstance(tg, ast.Name)}
+    for n in ast.walk(fn):
+        if aliases:
+            tg2 = n.targets if isinstance(n, ast.Assign) else ([n.target] if isinstance(n, ast.AugAssign) else [])
+            for x in tg2:
+                b = x
+                while isinstance(b, ast.Subscript):
+                    b = b.value
+                if isinstance(x, ast.Subscript) and isinstance(b, ast.Name) and b.id in aliases:
+                    return True
+            if isinstance(n, ast.Call) and isinstance(n.func, ast.Attribute) and n.func.attr in STATE_METHODS \
+                    and isinstance(n.func.value, ast.Name) and n.func.value.id in aliases:
+                return True
     for n in ast.walk(fn):
         tgs = []
         if isinstance(n, ast.Assign):
@@ -419,6 +444,13 @@ def mutation_of(fn):
                           'flipud', 'fliplr', 'rot90', 'broadcast_to')
         return False
 
+    def is_view_subscript(v, src):
+        """x[..., i] / x[a:b] / x[:, j] of an array-like borrowed value: basic slicing of an ndarray returns a VIEW"""
+        if not isinstance(v, ast.Subscript) or not (mutable_name(src) or src in array_alias):
+            return False
+        idx = v.slice.elts if isinstance(v.slice, ast.Tuple) else [v.slice]
+        return any(isinstance(e, ast.Slice) or (isinstance(e, ast.Constant) and e.value is Ellipsis) for e in idx)
+
     def is_fresh(v):
         if isinstance(v, ast.Call):
             f = v.func
@@ -461,7 +493,7 @@ def mutation_of(fn):
                             array_alias.discard(tg.id)
                         elif src in borrowed:
                             borrowed.add(tg.id)
-                            if is_array_alias_call(st.value):
+                            if is_array_alias_call(st.value) or is_view_subscript(st.value, src):
                                 array_alias.add(tg.id)
                         else:
                             borrowed.discard(tg.id)
@@ -610,6 +642,31 @@ def param_use(t, name):
     return sorted(keys), meths
 
 
+def self_reads(node):
+    return sorted({n.attr for n in ast.walk(node) if isinstance(n, ast.Attribute) and isinstance(n.value, ast.Name)
+                   and n.value.id == 'self'})
+
+
+def fill_use(t, name):
+    """which instance attributes the image path, the mask path and each entry of the sampled parameter dictionaries
+    read: [(method, key or '', attributes)]"""
+    rows = []
+    for m in ('apply', 'apply_to_mask'):
+        fn, owner = t.find(name, m)
+        if fn is not None and owner not in BASES:
+            rows.append((m, '', self_reads(fn)))
+    for m in ('get_params', 'get_params_dependent_on_targets', 'update_params'):
+        fn, owner = t.find(name, m)
+        if fn is None or owner in BASES:
+            continue
+        for d in ast.walk(fn):
+            if isinstance(d, ast.Dict):
+                for k, v in zip(d.keys, d.values):
+                    if isinstance(k, ast.Constant) and isinstance(k.value, str):
+                        rows.append((m, k.value, self_reads(v)))
+    return rows
+
+
 def main(out_dir):
     t = Tables()
     t.load()
@@ -749,6 +806,27 @@ def main(out_dir):
     puse = [(n,) + param_use(t, n) for n in names]
     lines.append(';\n'.join('  (%s, %s, [%s])' % (q(n), slist(ks), '; '.join('(%s, %s)' % (q(m), slist(fs)) for m, fs in ms))
                             for n, ks, ms in puse))
+    lines.append('].')
+    # ---- the arguments every transform persists: BasicTransform.get_base_init_args (key, attribute read or <expr>)
+    base_pairs = []
+    fn, _ = t.find('BasicTransform', 'get_base_init_args')
+    if fn is None:
+        t.errors.append({'function': 'BasicTransform.get_base_init_args', 'error': 'not found'})
+    else:
+        for n in ast.walk(fn):
+            if isinstance(n, ast.Dict):
+                for k, v in zip(n.keys, n.values):
+                    if isinstance(k, ast.Constant) and isinstance(k.value, str):
+                        base_pairs.append((k.value, v.attr if isinstance(v, ast.Attribute) and isinstance(v.value, ast.Name)
+                                           and v.value.id == 'self' else '<expr>'))
+    lines.append('')
+    lines.append('(* BasicTransform.get_base_init_args: (key, attribute of self written under it, or <expr>) *)')
+    lines.append('Definition base_args_table : list (string * string) := [%s].' % '; '.join('(%s, %s)' % (q(k), q(a)) for k, a in base_pairs))
+    lines.append('')
+    lines.append('(* fill use: class, target method or parameter method, parameter key ("" for a target method), attributes of self read *)')
+    lines.append('Definition fill_table : list (string * string * string * list string) := [')
+    fuse = [(n, m, k, r) for n in names for m, k, r in fill_use(t, n)]
+    lines.append(';\n'.join('  (%s, %s, %s, %s)' % (q(n), q(m), q(k), slist(r)) for n, m, k, r in fuse))
     lines.append('].')
     text = '\n'.join(lines) + '\n'
     path = os.path.join(out_dir, 'Gen_classtab.v')
